@@ -61,7 +61,7 @@ def nMods : Nat := legendMods.length
 
 /-- Which known deviation explains a token that does not cover its lexeme (source token `t`,
     model token `s`); `none` = unexplained. -/
-def excuse (text : Bytes) (s : SemToken) (t : Token) : Option String :=
+def excuse (cls : Classes) (text : Bytes) (s : SemToken) (t : Token) : Option String :=
   let isTag := t.ty == .comment && (s.ty == tyTag || s.ty == tyTagValue)
   if devPipe t then some "pipe-position"
   else if devCode t then some "code-length"
@@ -69,6 +69,7 @@ def excuse (text : Bytes) (s : SemToken) (t : Token) : Option String :=
   else if isTag && devTagBytes t (s.col.toNat + s.len.toNat - t.pos.col) then some "tag-byte-offsets"
   else if devNonBmpBefore text (lexemeRange text t).1 then some "nonbmp-column"
   else if isTag && devNonBmpBefore text t.stop.off then some "nonbmp-column"
+  else if isTag && devTagSkippedPart cls t then some "tag-search-position"
   else if devTextTrim text t then some "text-trimmed-position"
   else if !isTag && devCrComment t then some "crlf-comment-length"
   else none
@@ -111,7 +112,7 @@ def judge (d : LDoc) (impl : Data) : Verdict := Id.run do
       if !ok then
         let what := s!"token {i} (line {a.line} start {a.start} len {a.len} type {a.ty}) " ++
           (if inLine lens a then "does not cover its lexeme" else "leaves its line")
-        match excuse d.text s t with
+        match excuse d.cls d.text s t with
         | some id => v := v.excused id what
         | none => v := v.fail what
     else
@@ -140,7 +141,8 @@ def hypOk (d : LDoc) : Bool :=
   spacedB cls d.toks && inlineB (lineLens16 d.text) cls d.toks &&
   (tokenizeSrc cls d.toks).all fun (s, t) =>
     if t.ty == .comment && !(extractTags cls t).isEmpty then
-      !devTagBytes t (s.col.toNat + s.len.toNat - t.pos.col) && !devNonBmpBefore d.text t.stop.off
+      !devTagBytes t (s.col.toNat + s.len.toNat - t.pos.col) && !devNonBmpBefore d.text t.stop.off &&
+      !devTagSkippedPart cls t
     else faithful d.text t
 
 def tokens (j : Json) : Json :=
